@@ -41,6 +41,8 @@ def run(ctx):
     check_map(ctx, prog)
     check_map_alias(ctx, prog)
     check_set(ctx, prog)
+    check_size_shortcuts(ctx, prog)
+    check_dup(ctx, prog)
     check_share(ctx, prog)
     check_enum_range(ctx, prog)
     # value-returning const members of the map / set classes build a new container (never hand out `*this` or an argument)
@@ -664,6 +666,163 @@ def check_set(ctx, prog):
         ctx.check(not bad, 'C02.set', f['pq'], f['n'] + f['sig'] + ':thin', fwhere(f), 'built from has / operator[] / remove / enumeration only',
                   'Set member touches buckets, nodes or the count directly: %s' % [pe(b) for b in bad[:3]])
     ctx.floor('C02.set', n, 30)
+
+
+SIZE_FORCED = {
+    # predicate: (sizes for which `false` is forced, sizes for which `true` is forced); la = |this|, lb = |argument|
+    'contains': (lambda la, lb: lb > la, lambda la, lb: lb == 0),
+    'operator==': (lambda la, lb: la != lb, lambda la, lb: la == 0 and lb == 0),
+    'operator!=': (lambda la, lb: la == 0 and lb == 0, lambda la, lb: la != lb),
+    'containsAny': (lambda la, lb: la == 0 or lb == 0, lambda la, lb: False),
+}
+
+
+def check_size_shortcuts(ctx, prog):
+    """C02.sizecut: a set predicate may answer from the two sizes alone only where the sizes force the answer.  For every
+    `return <constant>` of Set::contains(Set) / operator== / operator!= / containsAny whose guards speak about nothing but
+    length() of the two sets, the guards are evaluated on a grid of (|this|, |argument|): `false` must be confined to sizes
+    for which no pair of sets gives true (|s| > |this| for containment, different sizes for equality), and likewise `true`.
+    A shortcut that also fires for equal sizes makes containment non-reflexive."""
+    import bounded, bytesets
+    n = 0
+    seen = set()
+    for f in prog.functions:
+        if f.get('clsp') != 'asl::Set' or not f.get('body') or f['n'] not in SIZE_FORCED or len(f['params']) != 1:
+            continue
+        pt = T(f, T(f, f['params'][0]['t']).get('to') or f['params'][0]['t'])
+        if pt.get('recp') != 'asl::Set':
+            continue
+        role0 = '%s(const Set &)' % f['n']
+        if role0 in seen:
+            continue
+        seen.add(role0)
+        ctx.analysed(f)
+        g = q.Guarded(f)
+        pid = f['params'][0]['id']
+        rets = [s_ for s_ in ir.walk_stmts(f['body']) if s_.get('k') == 'return' and s_.get('e') is not None and const_val(s_['e']) is not None]
+        for rt in rets:
+            val = bool(const_val(rt['e']))
+            lits = [w for w in walk_expr(rt['e'])]
+            guards = None
+            for w in lits:
+                if g.of(w):
+                    guards = g.of(w)
+                    break
+            if not guards:
+                continue
+            split = []
+            for c, pol, kind in guards:
+                if isinstance(c, dict) and kind != 'case' and pol and strip(c).get('k') == 'bin' and strip(c).get('op') == '&&':
+                    def conj(c_):
+                        c_ = strip(c_)
+                        return conj(c_['x']) + conj(c_['y']) if c_.get('k') == 'bin' and c_.get('op') == '&&' else [c_]
+                    split += [(ci, True, kind) for ci in conj(c)]
+                else:
+                    split.append((c, pol, kind))
+            by_text = {}
+            keep = []
+            only_sizes = True
+            try:
+                for gd in split:
+                    c, pol, kind = gd
+                    if not isinstance(c, dict) or kind == 'case':
+                        only_sizes = False
+                        continue
+                    bi, bt = bounded.atoms_of(prog, f, c)
+                    if bi or not bt or not all(bt[t].get('k') == 'call' and (bt[t].get('pq') or bt[t].get('fn') or '').split('::')[-1] == 'length' for t in bt):
+                        only_sizes = False
+                        continue
+                    by_text.update(bt)
+                    keep.append(gd)
+            except bytesets.Undecidable:
+                continue
+            if not keep or not only_sizes or len(by_text) > 2 or not any(pol for _, pol, _k in keep):
+                continue                    # the answer depends on the members looked up (or is the fall-through after them): not a size shortcut
+            arg = [t for t in by_text if any(w.get('k') == 'var' and w.get('id') == pid for w in walk_expr(by_text[t]))]
+            own = [t for t in by_text if t not in arg]
+            if len(arg) > 1 or len(own) > 1:
+                continue
+            n += 1
+            forced = SIZE_FORCED[f['n']][0 if not val else 1]
+            role = '%s:`return %s` on sizes alone only where the sizes force it' % (role0, 'true' if val else 'false')
+            st, info = bounded.decide(prog, f, tuple(keep), lambda ev: forced(ev.by_text[own[0]] if own else 0, ev.by_text[arg[0]] if arg else 0), {}, by_text, range(0, 5), G=g)
+            ctx.evaluations += 25
+            if st == 'holds':
+                ctx.ok('C02.sizecut', f['pq'], role, fwhere(f, rt.get('l')), 'the guards admit only forced sizes on the grid (%s points)' % info)
+            elif st == 'fails':
+                ctx.violation('C02.sizecut', f['pq'], role, fwhere(f, rt.get('l')), 'with %s the function answers %s from the sizes alone, but sets of these sizes exist for which the answer is %s (a set and an equal set built in another order): the predicate depends on more than the contents' % (
+                    ', '.join('%s = %s' % kv for kv in sorted(info.items())), 'true' if val else 'false', 'false' if val else 'true'))
+            else:
+                ctx.undecided('C02.sizecut', f['pq'], role, fwhere(f, rt.get('l')), str(info))
+    ctx.floor('C02.sizecut', n, 1)
+
+
+def check_dup(ctx, prog):
+    """C02.dup: clone() = dup() leaves a map with the same entries.  dup() either re-inserts every entry it enumerates from
+    *this into a fresh local map through operator[] (the insertion and the enumeration are decided by their own rules) and then
+    swaps the tables, or copies the bucket chains by hand.  A hand copy is held to the conditions of a chain copy: a link store
+    `t->next = new node` inside a loop needs a tail `t` that the loop advances (otherwise every node after the second of a
+    bucket overwrites the same link and is lost, while the count still includes it), and the new table's count is set from
+    the source or stepped per node."""
+    n = 0
+    seen = set()
+    for f in hm_members(prog, 'dup'):
+        if f['params']:
+            continue
+        role = 'dup:the copy has every entry'
+        if role in seen:
+            continue
+        ctx.analysed(f)
+        loops = [s_ for s_ in ir.walk_stmts(f['body']) if s_.get('k') in ('for', 'while', 'do')]
+        locs = dict((v['id'], v) for s_ in ir.walk_stmts(f['body']) if s_.get('k') == 'decl' for v in s_['vars'] if T(f, v['t']).get('recp') == 'asl::HashMap' and not T(f, v['t']).get('ref'))
+        news = [e for e in fn_exprs(f) if e.get('k') == 'new']
+        reinserts = []
+        for lp in loops:
+            for e in ir.stmt_exprs(lp['body']):
+                if e.get('k') == 'call' and (e.get('pq') or '') in ('asl::HashMap::operator[]', 'asl::HashMap::set') and e.get('obj') is not None and strip_lv(e['obj']).get('id') in locs:
+                    reinserts.append((lp, e))
+        def mentions_this(w):
+            ops = list(w.get('a') or []) + ([w['obj']] if w.get('obj') is not None else [])
+            return any(x.get('k') == 'this' for o_ in ops for x in walk_expr(o_))
+        enum_this = any(w.get('k') in ('construct', 'call') and ('numerator' in (w.get('fn') or w.get('cls') or '') or (w.get('pq') or '').split('::')[-1] == 'all') and mentions_this(w) for w in fn_exprs(f))
+        swaps = [e for e in fn_exprs(f) if e.get('k') == 'call' and (e.get('pq') or e.get('fn') or '').split('<')[0].split('::')[-1] == 'swap']
+        seen.add(role)
+        n += 1
+        if reinserts and enum_this and swaps and not news:
+            ctx.ok('C02.dup', f['pq'], role, fwhere(f), 'every enumerated entry of *this is re-inserted into a fresh map through operator[], then the tables are swapped')
+            continue
+        if not news:
+            ctx.undecided('C02.dup', f['pq'], role, fwhere(f), 'neither re-insertion through operator[] of a fresh local map nor a hand-written chain copy was recognised')
+            continue
+        problems = []
+        for lp in loops:
+            inner = [x for x in ir.walk_stmts(lp['body']) if x.get('k') in ('for', 'while', 'do')]
+            exprs = list(ir.stmt_exprs(lp)) if lp.get('k') != 'for' else list(ir.stmt_exprs(lp['body'])) + ([lp['c']] if lp.get('c') else []) + ([lp['inc']] if lp.get('inc') else [])
+            flat = [w for e in exprs for w in walk_expr(e)]
+            assigned = set()
+            for w in flat:
+                if w.get('k') == 'bin' and w.get('op', '').endswith('=') and w['op'] not in ('==', '!=', '<=', '>=') and strip_lv(w['x']).get('k') == 'var':
+                    assigned.add(strip_lv(w['x'])['id'])
+                if w.get('k') == 'un' and w.get('op') in ('post++', 'pre++', 'post--', 'pre--') and strip_lv(w['e']).get('k') == 'var':
+                    assigned.add(strip_lv(w['e'])['id'])
+            declared = set(v['id'] for x in ir.walk_stmts(lp['body']) if x.get('k') == 'decl' for v in x['vars'])
+            for w in flat:
+                if w.get('k') == 'bin' and w.get('op') == '=' and any(x.get('k') == 'new' for x in walk_expr(w['y'])):
+                    lv = strip_lv(w['x'])
+                    if lv.get('k') == 'mem' and strip_lv(lv.get('b') or {}).get('k') == 'var':
+                        base = strip_lv(lv['b'])
+                        reads_old = any(x.get('k') == 'mem' and x.get('f') == lv.get('f') and strip_lv(x.get('b') or {}).get('id') == base['id'] for x in walk_expr(w['y']))
+                        if base['id'] not in assigned and base['id'] not in declared and not reads_old:
+                            problems.append((w.get('l'), '`%s` is stored in a loop that never advances `%s`: every iteration overwrites the same link, so of a chain of three or more entries only the first and the last reach the copy (length() still counts all of them, the others leak)' % (pe(w)[:60], base.get('n'))))
+        counts = [e for e in fn_exprs(f) if (e.get('k') == 'bin' and e.get('op', '').endswith('=') and e['op'] not in ('==', '!=', '<=', '>=') and strip_lv(e['x']).get('k') == 'call' and (strip_lv(e['x']).get('pq') or '').endswith('::_n')) or
+                  (e.get('k') == 'un' and e.get('op') in ('post++', 'pre++') and strip_lv(e['e']).get('k') == 'call' and (strip_lv(e['e']).get('pq') or '').endswith('::_n'))]
+        if not counts:
+            problems.append((f.get('line'), 'the hand-copied table never receives an entry count'))
+        if problems:
+            ctx.violation('C02.dup', f['pq'], role, fwhere(f, problems[0][0]), problems[0][1])
+        else:
+            ctx.ok('C02.dup', f['pq'], role, fwhere(f), 'hand-written chain copy: every link store in a loop goes through a tail the loop advances, the count is set (necessary conditions only)')
+    ctx.floor('C02.dup', n, 1)
 
 
 def check_share(ctx, prog):
